@@ -143,6 +143,7 @@ def run(ctx):
         res.rule(k, v)
     for mname in METRICS:
         m = rm.build(rc, "rdp.rdp", {"cost": Obj("enum", f"Metrics.{mname}")})
+        rm.threshold_profile(rc, m, "T4", "T4")
         tag = f"rdp.rdp[{mname}]"
         ev = m.ev
         pt = popped_points(m)
